@@ -245,8 +245,11 @@ class Question(object):
             if error is not None:
                 self._write_error(io, error)
 
+            # Running out of input is not an invalid answer: give up
+            value = interviewer()
+
             try:
-                return self._validator(interviewer())
+                return self._validator(value)
             except Exception as e:
                 error = e
 
